@@ -1,5 +1,7 @@
 package mocker
 
+import "unsafe"
+
 // C01 (mocker layer): the replacement installed by Apply/Return is what a call reaches, it
 // sees the caller's arguments and the caller receives its results, for several
 // signatures; a cancelled mocker's stub forwards to the original.
@@ -123,4 +125,32 @@ func VC_C01_concurrent_callers() {
 	b.Reset()
 	verifAssert(!vDiverted(vC01Two), "C01.concurrent.reset-restores")
 	verifReached("C01.concurrent")
+}
+
+type vC01Node struct{ v int }
+type vC01Handle struct{ n *vC01Node } // the declared (think: unnameable) result type
+type vC01Fake struct{ n *vC01Node }   // identical layout
+type vC01FakeW struct{ u uintptr }    // same layout, the word is not a pointer type
+
+func vC01Open(i int) (vC01Handle, *vC01Node) { return vC01Handle{}, nil }
+
+// VC_C01_stub_standin_results: stubbed results given as layout-compatible stand-ins
+// (struct for struct, pointer for pointer) reach the caller as the values supplied.
+func VC_C01_stub_standin_results() {
+	vEnv()
+	vPristine(vC01Open)
+	node := &vC01Node{v: verifInt("v")}
+	b := Create()
+	if verifBool("wordFake") {
+		b.Func(vC01Open).Return(vC01FakeW{u: uintptr(unsafe.Pointer(node))}, node)
+	} else {
+		b.Func(vC01Open).Return(vC01Fake{n: node}, node)
+	}
+	f := vInvoke(vC01Open, "C01.standin").(func(int) (vC01Handle, *vC01Node))
+	h, p := f(verifInt("i"))
+	verifAssert(h.n == node, "C01.standin.struct-result-holds-the-supplied-pointer")
+	verifAssert(p == node, "C01.standin.pointer-result-is-the-supplied-pointer")
+	b.Reset()
+	verifAssert(!vDiverted(vC01Open), "C01.standin.reset-restores")
+	verifReached("C01.standin")
 }
